@@ -10,3 +10,14 @@ pub mod stubs;
 #[cfg(kani)]
 #[path = "../../common/tracing_stubs.rs"]
 pub mod tracing_stubs;
+
+#[cfg(kani)]
+mod ideal;
+#[cfg(kani)]
+mod c07_update;
+#[cfg(kani)]
+mod c07_local_header;
+#[cfg(kani)]
+mod c07_lru_file;
+#[cfg(kani)]
+mod c07_residency;
